@@ -674,7 +674,7 @@ def _shard(ctx, kind: str, *args) -> None:
 
 
 def run(ctx) -> None:
-    jobs: list[tuple] = [("seq", ctx.n(100, 4000))] * 8 + [("sched", ctx.n(200, 8000))] * 16
+    jobs: list[tuple] = [("seq", ctx.n(100, 2500))] * 8 + [("sched", ctx.n(200, 5000))] * 16
     jobs += [("matrix", code, group) for code in (0x29, 0x2E, 0x11) for group in (True, False)]
     jobs += [("other",)]
     jobs += [("enum", d, y) for d in (0.0, 0.5, 3.0) for y in (0, 1, 3)]
